@@ -272,7 +272,7 @@ PROPS = {
         level="exploration",
         rule=("same generator as C01 with targets copied from data locations; metamorphic and exactness laws: estim = datum and stdev = 0 at a datum without measurement "
               "error (nugget included); stdev finite, >= 0 and stdev^2 <= a-priori variance for simple kriging; universality sum_a lambda_a f_l(x_a) = f_l(x0) from "
-              "krigtest().wgt and the harness's drift functions; drift shift z' = z + sum c_l f_l => estim' = estim + sum c_l f_l(x0), stdev unchanged; linearity; "
+              "krigtest().wgt and the harness's drift functions; drift shift z' = z + sum c_l f_l => estim' = estim + sum c_l f_l(x0), stdev unchanged; linearity in the data and in the variables (kriging with matLC = the same combination of the plain cokriging estimates); "
               "sample permutation; translation of all coordinates; kappa-scaled tolerances, kappa > 1e10 inconclusive; non-trivial = >=1 target compared over >=2 "
               "neighbours and a coincident datum checked / c != 0 / permutation != identity / t != 0; distinct = hash as in C01 plus the transformation"),
         assumptions=["as C01; exactness only for variables defined at the datum, without positive measurement error, datum inside the neighbourhood, external drifts defined",
@@ -284,6 +284,7 @@ PROPS = {
             sub("universality", "c02_kriging_laws", 3200, 64000, qw=2, tw=4),
             sub("drift_shift", "c02_kriging_laws", 2400, 48000, qw=2, tw=4),
             sub("linearity", "c02_kriging_laws", 1600, 32000, qw=2, tw=4),
+            sub("matlc_linear", "c02_kriging_laws", 1200, 24000, qw=1, tw=2),
             sub("permutation", "c02_kriging_laws", 2400, 48000, qw=2, tw=4),
             sub("translation", "c02_kriging_laws", 2400, 48000, qw=2, tw=4),
         ]),
